@@ -52,6 +52,9 @@ Selectors == {"same", "none", "shift", "firstonly", "extra"}
 \* OWN species list
 \* DataTypes: besides 32-bit integers, floats and strings the field sets hold 64-bit integers - scalar, per thrust mode and
 \* per point - with values beyond 2^53 (which no float64 can hold): they read back as the same integers
+\* PointCounts: a trajectory has one point or more; the per-point fields of a one-point trajectory are arrays of length one
+\* and round-trip like any others (the harness gives the second trajectory of every third case exactly one point)
+PointCounts == {"one", "several"}
 \* "extremes": every value of a field's type other than the container's marker for "never written" is a value - floats
 \* beyond 1e37 and +inf, the smallest 32- and 64-bit integers, a species value of 1e300 read back as written (the
 \* harness gives them to the second trajectory of every second case)
